@@ -164,6 +164,7 @@ def ops_table():
         ("knot_clean", lambda c: c.knot_clean(), True), ("degree_clean", lambda c: c.degree_clean(), True), ("clean", lambda c: c.clean(), True),
         ("ctrlpoints=short", lambda c: setattr(c, "ctrlpoints", [F(1)]), True), ("ctrlpoints='abc'", lambda c: setattr(c, "ctrlpoints", "abc"), True),
         ("weights=bad", lambda c: setattr(c, "weights", ["x"] * c.npts), True),
+        ("weights=short-positive", lambda c: setattr(c, "weights", [F(2)] * (c.npts - 1)), True), ("weights=long-positive", lambda c: setattr(c, "weights", [F(1, 2)] * (c.npts + 2)), True),
         ("fit_points(short)", lambda c: c.fit_points([F(1)]), True), ("fit_points(ok)", lambda c: c.fit_points([F(i * i) for i in range(c.npts + 2)]), True),
         ("knotvector=other-interval", lambda c: setattr(c, "knotvector", [F(0), F(0), F(5), F(5)]), True),
         ("split[1]", lambda c: c.split([F(1)]), False), ("split()", lambda c: c.split(), False),
@@ -173,6 +174,8 @@ def ops_table():
         ("fraction", lambda c: c.fraction(), False), ("copy", lambda c: copy(c), False), ("Derivate", lambda c: calculus.Derivate(c), False),
         ("Integrate", lambda c: calculus.Integrate.scalar(c), False), ("other.fit_curve(c)", lambda c: Curve([F(0), F(0), F(3), F(3)]).fit_curve(c), False),
         ("c|shifted", lambda c: c | Curve([F(3), F(3), F(4), F(4)], [F(0), F(1)]), False),
+        ("cubic-left|c", lambda c: Curve([F(-1)] * 4 + [F(0)] * 4, [F(1), F(0), F(2), F(-1)]) | c, False),
+        ("line-left|c", lambda c: Curve([F(-2), F(-2), F(0), F(0)], [F(1), F(3)]) | c, False),
     ]
 
 
